@@ -29,8 +29,8 @@ META = {
     "note": "Trusted: Coq kernel; extraction (ExtrOcamlBasic) + OCaml; harness/c18_impl.cpp (recording engine replaces the "
             "transport; private members reached with #define private public); generator tools/props/c18.py. Modelled not "
             "verified: std::vector/string semantics, the mutexes (_wsMutex/_dataMutex) as atomic sections, the HTTP upgrade "
-            "handshake (not in the Coq model: the client side is run in the harness against a Python oracle - valid / refused / "
-            "never-ending responses, 64 KiB cap - tested, not proved), random mask key generation (any key).",
+            "handshake on the server side (HttpServer's request path, C15/C16), SHA-1/Base64 of the client handshake (the expected "
+            "Sec-WebSocket-Accept value is a parameter of the handshake model), random mask key generation (any key).",
 }
 
 
@@ -411,6 +411,13 @@ def build_cases(ctx):
         if len(resp) > 65536:
             chunks = [resp[j:j + 30000] for j in range(0, len(resp), 30000)] + [b"b" * 5000]
         add("RU 1024 " + ";".join("F:" + hx(c) for c in chunks), kind="upgrade", expect=upgrade_oracle(chunks))
+    # ... and the whole life of a connection: accepted upgrade, then a frame stream, cut anywhere (model only)
+    for i in range(10 if not thorough else 150):
+        resp = b"HTTP/1.1 101 Switching Protocols\r\nSec-WebSocket-Accept: " + ACCEPT + b"\r\n\r\n"
+        frames = frames_of(rng, gen_messages(rng), False, rng.random() < 0.5)
+        st = resp + stream_of(rng, frames, masked=False)
+        chunks = split_at(st, [rng.randint(1, max(1, len(st) - 1)) for _ in range(rng.randint(0, 4))])
+        add("RU 64 " + ";".join("F:" + hx(c) for c in chunks), kind="upgrade-stream")
     return cases
 
 
@@ -575,7 +582,6 @@ def evaluate(ctx, v, cases, impl, model):
                 failed_here = True
             else:
                 stats["nontrivial"].add(line)
-            continue
         elif k in ("parse-hostile", "parse-mut", "closepayload") and not failed_here:
             if ri.startswith("P "):
                 stats["nontrivial"].add(line)
